@@ -33,7 +33,12 @@ func (c *Ctx) loadField(st *State, p PtrV, f string) Val {
 	if ft == nil {
 		panic(unsupported{"no field " + f + " in " + p.TypeName()})
 	}
-	return c.loadAt(st, fieldBase(p, f), p.Ref, f, ft)
+	v := c.loadAt(st, fieldBase(p, f), p.Ref, f, ft)
+	// message values are finite and acyclic: a field of the holder's own type never points back at the holder
+	if q, ok := v.(PtrV); ok && q.Named != nil && p.Named != nil && q.Named.Obj() == p.Named.Obj() && q.Ref != "0" {
+		c.assume("(or (= " + p.Ref + " 0) (not (= " + q.Ref + " " + p.Ref + ")))")
+	}
+	return v
 }
 
 // loadAt reads a value of type ft stored under heap key base at reference ref.
